@@ -420,12 +420,79 @@ end InvLemmas
 section Refine
 variable {A : Agg}
 
+/-- The two halves of `phProcess`. -/
+theorem phStore_phDecide (cmd : Option (Sent A)) (wfail : Bool) (p : Ent A × Local A)
+    (hnd : ∀ v ch res sc, p.2 ≠ .decided v ch res sc) :
+    phStore wfail (phDecide cmd p) = phProcess cmd wfail p := by
+  obtain ⟨e, l⟩ := p
+  cases l with
+  | start => rfl
+  | processed v ch res => rfl
+  | done o => rfl
+  | decided v ch res sc => exact absurd rfl (hnd v ch res sc)
+  | loaded v ch =>
+    cases cmd with
+    | none => rfl
+    | some c =>
+      simp only [phDecide, phProcess]
+      split
+      · rfl
+      · cases hp : A.process v.st c.details with
+        | error err => cases wfail <;> simp [phStore]
+        | ok evs =>
+          cases evs with
+          | nil => rfl
+          | cons ev evs =>
+            simp only []
+            cases applyStored v ⟨c.actor, v.version, some c.details, .success (ev :: evs)⟩ with
+            | none => rfl
+            | some v' =>
+              simp only []
+              cases A.preSave v'.st (ev :: evs) with
+              | some err => rfl
+              | none => cases wfail <;> simp [phStore]
+
+theorem load_catchUp_notDecided (e : Ent A) (i : Nat) :
+    ∀ v ch res sc, (phCatchUp (phLoad i (e, Local.start))).2 ≠ .decided v ch res sc := by
+  intro v ch res sc
+  simp only [phLoad]
+  cases alookup e.cache i with
+  | some u =>
+    simp only [phCatchUp]
+    cases catchUp e.kv e.kv.fuel u with
+    | none => simp
+    | some r => simp
+  | none =>
+    simp only []
+    cases e.kv.snapshot with
+    | some u =>
+      simp only [phCatchUp]
+      cases catchUp e.kv e.kv.fuel u with
+      | none => simp
+      | some r => simp
+    | none =>
+      simp only []
+      cases e.kv.getCmd 0 with
+      | none => simp [phCatchUp]
+      | some c =>
+        simp only []
+        cases c.effect with
+        | init ev =>
+          simp only [phCatchUp]
+          cases catchUp e.kv e.kv.fuel ⟨A.initVersion, A.init ev⟩ with
+          | none => simp
+          | some r => simp
+        | success evs => simp [phCatchUp]
+        | error err => simp [phCatchUp]
+
 theorem execOpt_eq (e : Ent A) (i : Nat) (cmd : Option (Sent A)) (snap wfail : Bool) :
     execOpt e i cmd snap wfail =
       ((phFinish (phSnapshot snap wfail (phCache i (phProcess cmd wfail
           (phCatchUp (phLoad i (e, Local.start))))))).1,
        (phFinish (phSnapshot snap wfail (phCache i (phProcess cmd wfail
-          (phCatchUp (phLoad i (e, Local.start))))))).2.out) := rfl
+          (phCatchUp (phLoad i (e, Local.start))))))).2.out) := by
+  rw [← phStore_phDecide cmd wfail _ (load_catchUp_notDecided e i)]
+  rfl
 
 theorem isInit_iff {eff : Effect A} : eff.isInit = true ↔ ∃ ev, eff = .init ev := by
   cases eff <;> simp [Effect.isInit]
